@@ -114,8 +114,17 @@ func (g *G) GenRule(p *Profile, id, ver int) *RuleDef {
 		}
 		usedKind[k] = true
 		s := Sec{Kind: k}
+		if k == SecReader {
+			s.Arg = g.Intn(8)
+			if g.Pct(50) {
+				s.Arg = 0 // the plain case: local x
+			}
+		}
 		if k == SecConc {
 			s.Arg = g.Intn(1 << NumChild) // 0 = empty block
+			if s.Arg&(1<<ChAsgLocal|1<<ChAsgLoc2) != 0 && g.Pct(30) {
+				s.Arg |= 1 << ChPre // the children overwrite locals declared before the block
+			}
 			if g.Pct(12) {
 				// a long block: up to two dozen further statements of all four forms
 				if s.Arg == 0 {
@@ -152,13 +161,33 @@ func (g *G) GenRuleSet(p *Profile) []*RuleDef {
 				sec := &rs[i].Secs[j]
 				if sec.Kind == SecConc {
 					sec.Arg &^= 1 << ChAsgField
-					if sec.Arg&0xffff == 0 {
+					if sec.Arg&0xff == 0 {
 						sec.Arg = 0
 					}
 				}
 				if sec.Kind == SecSetKind && i+1 > 8 {
 					sec.Kind = SecY
 				}
+			}
+		}
+	}
+	// a reader section looks for a local that some *other* rule of the set assigns (where there is one)
+	for i, r := range rs {
+		for j := range r.Secs {
+			if r.Secs[j].Kind != SecReader || r.Secs[j].Arg == 0 {
+				continue
+			}
+			var names []string
+			for k, o := range rs {
+				if k != i {
+					names = append(names, o.AssignedLocals()...)
+				}
+			}
+			if len(names) == 0 {
+				continue
+			}
+			if pref := r.ReaderPref(names[g.Intn(len(names))]); pref >= 0 {
+				r.Secs[j].Arg = pref
 			}
 		}
 	}
@@ -278,7 +307,7 @@ func (g *G) GenCall(p *Profile, rules []*RuleDef, idx int) *Call {
 			var cands []int
 			for i, s := range r.Secs {
 				if FaultCapable(s.Kind) && (p.FaultKinds == nil || p.FaultKinds[s.Kind]) {
-					if s.Kind == SecConc && s.Arg&0xffff == 0 {
+					if s.Kind == SecConc && s.Arg&0xff == 0 {
 						continue
 					}
 					cands = append(cands, i)
@@ -305,7 +334,7 @@ func (g *G) GenCall(p *Profile, rules []*RuleDef, idx int) *Call {
 			ny := len(yks)
 			conc := -1
 			for i, s := range r.Secs {
-				if s.Kind == SecConc && s.Arg&0xffff != 0 {
+				if s.Kind == SecConc && s.Arg&0xff != 0 {
 					conc = i
 				}
 			}
